@@ -278,7 +278,12 @@ pub fn run_cli(sc: &Scenario, renderer: &str) -> Observation {
         return obs;
     }
     // command line
-    let mut args: Vec<String> = vec!["test".into(), "-r".into(), renderer.into(), "--no-color".into()];
+    let update = sc.cli.command.as_deref() == Some("update");
+    let mut args: Vec<String> = if update {
+        vec!["update".into(), "-y".into(), "--no-color".into()]
+    } else {
+        vec!["test".into(), "-r".into(), renderer.into(), "--no-color".into()]
+    };
     if let Some(t) = sc.cli.timeout_seconds {
         args.push("--timeout-seconds".into());
         args.push(t.to_string());
@@ -307,8 +312,24 @@ pub fn run_cli(sc: &Scenario, renderer: &str) -> Observation {
         args.push("--shell".into());
         args.push(s.clone());
     }
-    for d in sc.docs.iter().filter(|d| d.main) {
-        args.push(info.doc_path[&d.path].clone());
+    if sc.cli.as_directory {
+        // all main documents live in one directory that holds nothing else
+        let mut dirs: Vec<String> = sc
+            .docs
+            .iter()
+            .filter(|d| d.main)
+            .map(|d| {
+                let p = &info.doc_path[&d.path];
+                p[..p.rfind('/').unwrap_or(0)].to_string()
+            })
+            .collect();
+        dirs.sort();
+        dirs.dedup();
+        args.extend(dirs);
+    } else {
+        for d in sc.docs.iter().filter(|d| d.main) {
+            args.push(info.doc_path[&d.path].clone());
+        }
     }
     for m in &sc.cli.missing_paths {
         args.push(doc_root.join(m).to_string_lossy().into_owned());
@@ -413,7 +434,7 @@ pub fn run_cli(sc: &Scenario, renderer: &str) -> Observation {
             },
         );
     }
-    if renderer == "json" && obs.exit_status != Some(1) && obs.exit_status.is_some() && obs.sim_abort.is_none() {
+    if renderer == "json" && !update && obs.exit_status != Some(1) && obs.exit_status.is_some() && obs.sim_abort.is_none() {
         match serde_json::from_str::<serde_json::Value>(&obs.stdout) {
             Ok(serde_json::Value::Array(items)) => {
                 for it in items {
